@@ -242,7 +242,7 @@ impl Property for C45a {
         case_strategy(tier)
     }
     fn budget(&self, tier: Tier) -> Budget {
-        Budget::new(tier.pick(4_800, 480_000), tier.pick(8, 16)).min_nontrivial(tier.pick(1_000, 100_000)).discard_cap(0.5)
+        Budget::new(tier.pick(4_800, 1_200_000), tier.pick(8, 16)).min_nontrivial(tier.pick(1_000, 250_000)).discard_cap(0.5)
     }
     fn rule(&self) -> String {
         "function and coerced argument-type vector drawn uniformly from the catalog (all default + nested scalar UDFs, volatile included; vectors = fixpoints of the planner coercion); 1-12 rows (thorough 1-24), each argument \
@@ -267,7 +267,14 @@ impl Property for C45a {
     }
 
     fn run(&self, case: &Case) -> CaseResult {
-        run_case(case)
+        run_cached(case)
+    }
+
+    fn known_signature(&self, case: &Case) -> Option<String> {
+        match &run_cached(case).outcome {
+            Outcome::Violation(m) => m.strip_prefix("[sig=").and_then(|rest| rest.split(']').next()).map(|s| s.to_string()),
+            _ => None,
+        }
     }
 
     fn extra(&self, _tier: Tier, _seed: u64) -> Result<Value, (String, Case)> {
@@ -292,6 +299,21 @@ impl Property for C45a {
         }
         Ok(json!({"per_function": per_fn, "functions_with_zero_successes": zero, "functions_without_type_vectors": no_vectors, "functions_in_scope": cat.len(), "scalar_only_functions": scalar_only}))
     }
+}
+
+thread_local! {
+    static LAST: std::cell::RefCell<Option<(u64, CaseResult)>> = const { std::cell::RefCell::new(None) };
+}
+
+/// `known_signature` has to evaluate the case to know its signature; the result is reused by `run`
+fn run_cached(case: &Case) -> CaseResult {
+    let fp = serde_json::to_vec(case).map(|b| fnv1a(&b)).unwrap_or(0);
+    if let Some(r) = LAST.with(|l| l.borrow().as_ref().filter(|(f, _)| *f == fp).map(|(_, r)| r.clone())) {
+        return r;
+    }
+    let r = run_case(case);
+    LAST.with(|l| *l.borrow_mut() = Some((fp, r.clone())));
+    r
 }
 
 fn run_case(case: &Case) -> CaseResult {
@@ -340,10 +362,10 @@ fn run_case(case: &Case) -> CaseResult {
         }
         let a = coerce_outcome(native, tv);
         let b = coerce_outcome(&foreign, tv);
-        match (&a, &b) {
-            (Ok(x), Ok(y)) if x == y => labels.push(format!("coerce:{what}:ok")),
-            (Err(_), Err(_)) => labels.push(format!("coerce:{what}:both-reject")),
-            _ => violation!("coercion of {what} types {:?}: native {:?} foreign {:?}", tv.iter().map(|t| t.short()).collect::<Vec<_>>(), a, b),
+        let raw_dts: Vec<DataType> = tv.iter().map(|t| t.dt()).collect();
+        match crate::coercion_agree(&a, &b, &raw_dts) {
+            Ok(l) => labels.push(format!("coerce:{what}:{l}")),
+            Err(e) => violation!("coercion of {what} types {:?}: {e}", tv.iter().map(|t| t.short()).collect::<Vec<_>>()),
         }
     }
 
@@ -394,7 +416,13 @@ fn run_case(case: &Case) -> CaseResult {
         .collect();
 
     // ---- R return field
-    let rf_native = native.return_field_from_args(ReturnFieldArgs { arg_fields: &arg_fields, scalar_arguments: &scalars });
+    let rf_native = match crate::guard(|| native.return_field_from_args(ReturnFieldArgs { arg_fields: &arg_fields, scalar_arguments: &scalars })) {
+        Ok(r) => r,
+        Err(p) => {
+            labels.push(format!("native-panic:fn={name}:{}", truncate(&p, 40)));
+            return CaseResult::pass().labels(labels);
+        }
+    };
     let rf_foreign = foreign.return_field_from_args(ReturnFieldArgs { arg_fields: &arg_fields, scalar_arguments: &scalars });
     let return_field = match (rf_native, rf_foreign) {
         (Ok(a), Ok(b)) => {
@@ -472,38 +500,81 @@ fn run_case(case: &Case) -> CaseResult {
     // ---- I invocation
     let cfg = Arc::new(cfg);
     let volatile = native.signature().volatility == Volatility::Volatile;
-    let array_fields: Vec<FieldRef> = arg_fields.clone();
-    let nat_arrays = invoke(native, &arrays, &array_fields, rows, &return_field, &cfg);
-    let for_given = invoke(&foreign, &given, &arg_fields, rows, &return_field, &cfg);
-    if any_scalar {
-        let nat_given = invoke(native, &given, &arg_fields, rows, &return_field, &cfg);
-        if nat_given.is_ok() && nat_arrays.is_err() {
-            labels.push("scalarness-matters".into());
-            labels.push(format!("scalar-only:fn={name}"));
-            bump(name, 3);
-        }
+    macro_rules! native_invoke {
+        ($args:expr) => {
+            match crate::guard(|| invoke(native, $args, &arg_fields, rows, &return_field, &cfg)) {
+                Ok(r) => r,
+                Err(p) => {
+                    // the same panic inside the extern "C" entry point would abort the process: do not call the foreign side
+                    labels.push(format!("native-panic:fn={name}:{}", truncate(&p, 40)));
+                    return CaseResult::pass().labels(labels);
+                }
+            }
+        };
     }
-    match (&nat_arrays, &for_given) {
-        (Err(_), Err(_)) => {
+    // G: the arguments as given (what a native caller gets); A: the same arguments materialised as arrays (what the
+    // provider side of the FFI sees today)
+    let nat_given = native_invoke!(&given);
+    let nat_arrays = if any_scalar { native_invoke!(&arrays) } else { nat_given.as_ref().map(|o| Out { is_scalar: o.is_scalar, len: o.len, dt: o.dt.clone(), rendered: o.rendered.clone() }).map_err(|e| e.clone()) };
+    let for_given = invoke(&foreign, &given, &arg_fields, rows, &return_field, &cfg);
+    // None = agrees; Some(why) = differs
+    let differs = |n: &Result<Out, String>, f: &Result<Out, String>| -> Option<String> {
+        match (n, f) {
+            (Err(_), Err(_)) => None,
+            (Ok(a), Err(e)) => Some(format!("native Ok ({} x {}), foreign Err {e}", a.len, a.dt)),
+            (Err(e), Ok(b)) => Some(format!("native Err {e}, foreign Ok ({} x {})", b.len, b.dt)),
+            (Ok(a), Ok(b)) => {
+                if a.is_scalar != b.is_scalar {
+                    Some(format!("result variant differs: native scalar={} foreign scalar={}", a.is_scalar, b.is_scalar))
+                } else if a.len != b.len {
+                    Some(format!("result length differs: native {} foreign {} (number_rows={rows})", a.len, b.len))
+                } else if a.dt != b.dt {
+                    Some(format!("result type differs: native {} foreign {}", a.dt, b.dt))
+                } else if !volatile && a.rendered != b.rendered {
+                    let i = (0..a.rendered.len()).find(|i| a.rendered[*i] != b.rendered[*i]).unwrap_or(0);
+                    Some(format!("row {i} differs: native {} foreign {}; arguments of that row: {:?}", a.rendered[i], b.rendered[i], case.cols.iter().map(|c| &c[i.min(rows - 1)]).collect::<Vec<_>>()))
+                } else {
+                    None
+                }
+            }
+        }
+    };
+    let vs_arrays = differs(&nat_arrays, &for_given);
+    let vs_given = differs(&nat_given, &for_given);
+    let reference = match (&vs_arrays, &vs_given) {
+        (None, _) => {
+            if nat_given.is_ok() && for_given.is_err() {
+                // behaves as the array-only transport dictates, but the component the caller wrapped works natively
+                labels.push("scalarness-matters".into());
+                bump(name, 3);
+                return CaseResult::violation(format!(
+                    "[sig=scalar-args-lost] {sig}: the native function accepts these arguments (literal arguments as scalars) but fails through the FFI, which expands every scalar argument to an array: native Ok, foreign Err {}; rows={rows} scalar arguments={:?} first row={:?}",
+                    for_given.as_ref().err().cloned().unwrap_or_default(),
+                    given.iter().map(|a| matches!(a, Arg::Scalar(_))).collect::<Vec<_>>(),
+                    first_row(case)
+                ))
+                .labels(labels);
+            }
+            &nat_arrays
+        }
+        (Some(_), None) => {
+            labels.push("foreign-preserves-scalars".into());
+            &nat_given
+        }
+        (Some(a), Some(g)) => {
+            if any_scalar {
+                violation!("invoke: foreign result matches neither native call: vs arguments-as-arrays: {a}; vs arguments-as-given: {g}; rows={rows} first row={:?}", first_row(case))
+            } else {
+                violation!("invoke: {g}; rows={rows} first row={:?}", first_row(case))
+            }
+        }
+    };
+    match reference {
+        Err(_) => {
             labels.push("invoke:both-fail".into());
             CaseResult::pass().labels(labels)
         }
-        (Ok(a), Err(e)) => violation!("invoke: native (arguments as arrays) Ok ({} x {}), foreign Err {e}; rows={rows} args={:?}", a.len, a.dt, first_row(case)),
-        (Err(e), Ok(b)) => violation!("invoke: native (arguments as arrays) Err {e}, foreign Ok ({} x {}); rows={rows} args={:?}", b.len, b.dt, first_row(case)),
-        (Ok(a), Ok(b)) => {
-            if a.is_scalar != b.is_scalar {
-                violation!("invoke: result variant differs: native scalar={} foreign scalar={}", a.is_scalar, b.is_scalar);
-            }
-            if a.len != b.len {
-                violation!("invoke: result length differs: native {} foreign {} (number_rows={rows})", a.len, b.len);
-            }
-            if a.dt != b.dt {
-                violation!("invoke: result type differs: native {} foreign {}", a.dt, b.dt);
-            }
-            if !volatile && a.rendered != b.rendered {
-                let i = (0..a.rendered.len()).find(|i| a.rendered[*i] != b.rendered[*i]).unwrap_or(0);
-                violation!("invoke: row {i} differs: native {} foreign {}; arguments of that row: {:?}", a.rendered[i], b.rendered[i], case.cols.iter().map(|c| &c[i.min(rows - 1)]).collect::<Vec<_>>());
-            }
+        Ok(a) => {
             bump(name, 1);
             labels.push(format!("fn={name}"));
             if volatile {
